@@ -665,7 +665,10 @@ func (c *Conn) readRecordOrCCS(expectChangeCipherSpec bool) error {
 		record := c.rawInputBuf[:recordHeaderLen+n]
 		data, typ, err := c.in.decrypt(record)
 		if err != nil {
-			return c.in.setErrorLocked(c.sendAlert(err.(alert)))
+			// 数据报协议中验证失败的记录（伪造、损坏）静默丢弃 (RFC 6347 §4.1.2.7)，
+			// 不得影响之后的合法记录；ReadFrom 路径已是如此
+			c.rawInputBuf = c.rawInputBuf[recordHeaderLen+n:]
+			continue
 		}
 
 		// 重放检查（解密成功后执行，RFC 6347 §4.1.2.6）
